@@ -157,6 +157,9 @@ func (g *gen) call(instr ssa.Instruction, c *ssa.CallCommon, pos token.Pos) Val 
 		cargs = args[1:]
 	}
 	g.callSiteClauses(key, args, c, pos)
+	if g.onCall != nil {
+		g.onCall(g, c, callee, args, pos)
+	}
 	if g.e.inRepo(callee) && g.nilArgs {
 		// assume/guarantee: callees assume non-nil receivers and syntax-node pointers; every call site proves it
 		for i, p := range callee.Params {
